@@ -166,3 +166,15 @@ claim("C09",
       "done nothing else, for hash seeds {0,1} (thorough {0,1,2,3}).",
       "TranscriptWriter not exercised (nltk absent); an exception type counts as the outcome",
       "DESIGN.md 3/C09")
+claim("C10",
+      "Hypothesis RuleBasedStateMachine over histories of reads / writes / edits on fresh and "
+      "reused reader objects; differential against pristine forked children under several "
+      "PYTHONHASHSEED values; isolation invariant over all live caption sets after every step",
+      "Generated-history search: 600 (thorough 12k) histories of up to 20 (40) steps over the "
+      "162 repository documents, digit-mutated variants of them, families of look-alike DFXP / "
+      "SAMI documents and generated documents of five formats; every read outcome (canonical "
+      "dump or exception type) must equal the outcome in a process that has done nothing else "
+      "(hash seeds {0,1} / {0,1,2,3}); after every read, write or edit all other live caption "
+      "sets must dump as before.",
+      "an exception type counts as the outcome; at most 8 caption sets are kept alive",
+      "DESIGN.md 3/C10")
